@@ -37,7 +37,7 @@ def source(kind, k, shift):
         return ("import builtins\n\n\ndef f(a):\n    builtins._vf_log.append((1, a))\n    return (1, a)\n\n\n"
                 "def g2(a):\n    builtins._vf_log.append((2, a))\n    return (2, a)\n\n\n"
                 "def g3(a):\n    builtins._vf_log.append((3, a))\n    return (3, a)\n")
-    if kind == "nofile":
+    if kind in ("nofile", "sourceless"):
         return pre + "import builtins\n\n\ndef f(a):\n    builtins._vf_log.append((%d, a))\n    return (%d, a)\n" % (k, k)
     raise ValueError(kind)
 
@@ -61,10 +61,13 @@ def run_session(kind, location, moddir, steps):
         if op == "def":
             _, k, shift = step
             src = source(kind, k, shift)
-            if kind == "nofile":
+            if kind in ("nofile", "sourceless"):
                 nofile_count[0] += 1
-                fname = "<vf-nofile-%d>" % nofile_count[0]
-                linecache.cache[fname] = (len(src), None, src.splitlines(True), fname)
+                fname = "<vf-%s-%d>" % (kind, nofile_count[0])
+                if kind == "nofile":
+                    # like an interactive shell: no file, but the source can be retrieved through linecache
+                    linecache.cache[fname] = (len(src), None, src.splitlines(True), fname)
+                # "sourceless": exec()-defined, no source anywhere; the versions differ only by a constant
                 ns = {"__name__": "vf_nofile"}
                 exec(compile(src, fname, "exec"), ns)
                 func = ns["f"]
